@@ -300,6 +300,27 @@ def gen_macro_program(rng, dom=4):
                         if v not in bound:
                             bound.append(v)
                 body.append(Clause(rn, args))
+        if isinstance(body[0], MacroCall) and rng.random() < 0.5:
+            # the same macro again after the (possible) disjunction: its locals get the same names in both expansions
+            md0 = [m for m in body_macros if m.name == body[0].name][0]
+            args = []
+            for (pn, kind) in md0.params:
+                v = rng.choice(bound) if bound and rng.random() < 0.6 else rng.choice(NAMES)
+                if v not in bound:
+                    bound.append(v)
+                args.append(V(v))
+            body.append(MacroCall(md0.name, args))
+        if len(body) >= 2 and rng.random() < 0.5:
+            # wrap the first item into a disjunction with a plain clause binding the same call-site variables; the remaining
+            # items (often invocations of the same macro) follow the disjunction
+            first = body[0]
+            if isinstance(first, MacroCall):
+                site = [a.name for a in first.args if isinstance(a, V)]
+                if len(site) >= 1 and len(set(site)) == len(site):
+                    alt_rel = 'g' if len(site) == 1 else ('e' if len(site) == 2 else ('t' if len(site) == 3 else None))
+                    if alt_rel and all(isinstance(a, V) for a in first.args):
+                        alt = Clause(alt_rel, [AVar(v) for v in site])
+                        body = [Disj([[first], [alt]] if rng.random() < 0.5 else [[alt], [first]])] + body[1:]
         o = rng.choice(outs)
         if not bound:
             continue
